@@ -143,6 +143,40 @@ move=> b /ltP lb.
 have := kern rinj cinj kerf (Ordinal lb) => /(congr1 gval).
 by rewrite /c /= gval_gf_of //; exact: bytes_nth.
 Qed.
+
+(* the same with index functions instead of sorted lists *)
+Lemma mdsN_fun_gen k (r c : nat -> nat) (x : nat -> N) :
+  (forall a, (a < k)%coq_nat -> (r a < R'.+1)%coq_nat) ->
+  (forall a b, (a < k)%coq_nat -> (b < k)%coq_nat -> r a = r b -> a = b) ->
+  (forall b, (b < k)%coq_nat -> (c b < 251)%coq_nat) ->
+  (forall a b, (a < k)%coq_nat -> (b < k)%coq_nat -> c a = c b -> a = b) ->
+  (forall b, (b < k)%coq_nat -> (x b < 256)%N) ->
+  (forall a, (a < k)%coq_nat -> xsumN k (fun b => gmul (MN (r a) (c b)) (x b)) = 0%N) ->
+  forall b, (b < k)%coq_nat -> x b = 0%N.
+Proof.
+move=> br ir bc ic bx ker.
+have rlt (a : 'I_k) : (r a < R'.+1)%nat by apply/ltP; apply: br; apply/ltP.
+have clt (a : 'I_k) : (c a < 251)%nat by apply/ltP; apply: bc; apply/ltP.
+pose rows (a : 'I_k) : 'I_R'.+1 := inord (r a).
+pose cols (a : 'I_k) : 'I_251 := inord (c a).
+pose cf (b : 'I_k) : gf := gf_of (x b).
+have rinj : injective rows.
+  move=> a1 a2 /(congr1 val); rewrite /= !inordK // => e; apply: val_inj.
+  by apply: ir e; apply/ltP.
+have cinj : injective cols.
+  move=> a1 a2 /(congr1 val); rewrite /= !inordK // => e; apply: val_inj.
+  by apply: ic e; apply/ltP.
+have kerf a : \sum_(b < k) Mf (rows a) (cols b) * cf b = 0.
+  apply: gf_inj.
+  rewrite (gval_sum k (fun b => Mf (rows a) (inord (c b)) * gf_of (x b))).
+  rewrite gval_0 -[RHS](ker a); last by apply/ltP.
+  apply: xsumN_ext => b /ltP lb.
+  rewrite gval_mul gval_gf_of; last by apply: bx; apply/ltP.
+  by rewrite bridge // /rows !inordK // ?(clt (Ordinal lb)) ?(rlt a).
+move=> b /ltP lb.
+have := kern rinj cinj kerf (Ordinal lb) => /(congr1 gval).
+by rewrite /cf /= gval_gf_of //; apply: bx; apply/ltP.
+Qed.
 End MdsN.
 
 Theorem mdsN m (rs cs : list nat) (x : list N) :
@@ -158,6 +192,20 @@ Proof.
 case: m => /=.
 - by apply: (@mdsN_gen 5 A cauchyN) => [r i lr li|k rows cols c]; [apply: cauchyN_bridge_ssr|apply: mds_kernel].
 - by apply: (@mdsN_gen 2 P powerN) => [r i lr li|k rows cols c]; [apply: powerN_bridge_ssr|apply: mds_power_kernel].
+Qed.
+
+Theorem mdsN_fun m k (r c : nat -> nat) (x : nat -> N) :
+  (forall a, (a < k)%coq_nat -> (r a < GenProofs.rows_of m)%coq_nat) ->
+  (forall a b, (a < k)%coq_nat -> (b < k)%coq_nat -> r a = r b -> a = b) ->
+  (forall b, (b < k)%coq_nat -> (c b < 251)%coq_nat) ->
+  (forall a b, (a < k)%coq_nat -> (b < k)%coq_nat -> c a = c b -> a = b) ->
+  (forall b, (b < k)%coq_nat -> (x b < 256)%N) ->
+  (forall a, (a < k)%coq_nat -> xsumN k (fun b => gmul (matN m (r a) (c b)) (x b)) = 0%N) ->
+  forall b, (b < k)%coq_nat -> x b = 0%N.
+Proof.
+case: m => /=.
+- by apply: (@mdsN_fun_gen 5 A cauchyN) => [r' i lr li|k' rows cols c']; [apply: cauchyN_bridge_ssr|apply: mds_kernel].
+- by apply: (@mdsN_fun_gen 2 P powerN) => [r' i lr li|k' rows cols c']; [apply: powerN_bridge_ssr|apply: mds_power_kernel].
 Qed.
 
 (* ------------------------------------------------------------------------------------------- *)
@@ -189,4 +237,5 @@ Qed.
 Print Assumptions cauchyN_bridge.
 Print Assumptions powerN_bridge.
 Print Assumptions mdsN.
+Print Assumptions mdsN_fun.
 Print Assumptions rec2_identityN.
